@@ -269,7 +269,8 @@ def init (w : Nat) : Sys := { conn := ConnFc.init w, streams := [] }
 def step (s : Sys) (op : Op) : Sys :=
   if s.closed.isSome then s else
   match op with
-  | .openStream w => { s with streams := s.streams ++ [Recv.init false w] }
+  | .openStream w =>       -- windows are VarInts
+    if w ≤ maxVarInt then { s with streams := s.streams ++ [Recv.init false w] } else s
   | .data i off d fin =>
     match s.streams[i]? with
     | none => s
